@@ -351,4 +351,114 @@ theorem Ob_MapMetaDataSlab_Set_step_childErr {α : Type} (m : MMetaSlab α) (x :
 
 end
 
+/-! ### non-vacuity: a concrete 2-child index slab over a concrete heap -/
+namespace mdsEx
+
+def id0 : SlabID := ⟨1, 1⟩
+def id1 : SlabID := ⟨1, 2⟩
+def id2 : SlabID := ⟨1, 3⟩
+def g0 : DG 0 := { hkeys := [], elems := [], size := 10, level := 0 }
+def d1 : MDataSlab 0 :=
+  { hdr := { id := id1, size := 100, firstKey := 0 }, next := id2, elems := g0, root := false, inlined := false }
+def d2 : MDataSlab 0 :=
+  { hdr := { id := id2, size := 100, firstKey := 50 }, next := SlabID.undef, elems := g0, root := false, inlined := false }
+def mm : MMetaSlab (MTree 0 0) :=
+  { hdr := { id := id0, size := 60, firstKey := 0 }, childHdrs := [d1.hdr, d2.hdr], children := [d1, d2], root := true }
+def kk : MKey := { size := 1, pay := 7, digs := [60] }
+def cfg0 : MCfg := { T := 1024, L := 4, climit := 0, addr := 1 }
+def xx : DX := (0, 0, 0)
+
+/-- the element layer given by the MODEL (so that `ElemsSpec` holds by `rfl`) -/
+def eb0 : DEnvB 0 where
+  DigesterBuilder_Digest := fun _ _ => (default, none)
+  Digester_Digest := fun _ _ => (0, none)
+  Digester_Levels := fun _ => 0
+  MapSlab_Get := fun _ c _ _ _ _ => (none, none, none, c)
+  MapSlab_Set := fun m c _ _ _ _ _ _ => (none, none, none, m, c)
+  MapSlab_getElementAndNextKey := fun _ c _ _ _ _ => (none, none, none, none, c)
+  NewHashLevelErrorf := none
+  NewKeyNotFoundError := none
+  NewSlabDataErrorf := none
+  NewSlabNotFoundErrorf := none
+  SlabIDStorable_ByteSize := 0
+  SlabStorage_GenerateSlabID := fun c _ => (SlabID.undef, none, c)
+  SlabStorage_Remove := fun c _ => (none, c)
+  SlabStorage_Retrieve := fun c _ => (.nil, false, none, c)
+  SlabStorage_Store := fun c _ _ => (none, c)
+  Storable_ByteSize := fun _ => 0
+  Storable_StoredValue := fun _ c => (.key default, none, c)
+  ValueComparator := fun c _ _ => (false, none, c)
+  Value_Storable := fun _ c _ _ => (none, none, c)
+  elements_Count := fun _ => 0
+  elements_Element := fun _ _ => (.nil, none)
+  elements_Get := fun g c d _ _ _ => mei_rGet c (HkeyElems.get (MElems.ops 0) cfg0 g 0 d)
+  elements_Remove := fun g c d _ _ _ => mei_rGRemove g c (HkeyElems.remove (MElems.ops 0) cfg0 g 0 d c)
+  elements_Set := fun g c _ _ d _ _ _ w' =>
+    match w' with
+    | .val v => mei_rGSet g c (HkeyElems.set (MElems.ops 0) cfg0 g 0 d v c)
+    | .key _ => (none, none, none, g, c)
+  elements_Size := fun g => u32 g.size
+  elements_firstKey := fun g => u64 (HkeyElems.firstKey g)
+  elements_getElementAndNextKey := fun _ c _ _ _ _ => (none, none, none, none, c)
+  maxInlineMapElementSize := 0
+  maxInlineMapValueSize := fun _ => 0
+  newHkeyElementsWithElement := fun _ _ _ => g0
+  newSingleElementsWithElement := fun _ _ => g0
+  wrapErrorfAsExternalErrorIfNeeded := id
+
+theorem eb0_spec (k : MKey) (v : Elem) : ElemsSpec cfg0 k v (fun _ => True) eb0 where
+  size := fun _ => rfl
+  first := fun _ => rfl
+  get := fun _ _ _ => rfl
+  set := fun _ _ _ => rfl
+  remove := fun _ _ _ => rfl
+
+/-- an element layer whose `Set` always succeeds without changing anything (the step theorem is for ANY `eb`) -/
+def eb1 : DEnvB 0 := { eb0 with elements_Set := fun g c _ _ d _ _ _ _ => (some (.key d), none, none, g, c) }
+
+def rs0 : DRestruct 0 where
+  splitChild := fun m s c _ => (none, m, s, c)
+  mergeOrRebalance := fun m s c _ _ => (none, m, s, c)
+  splitRoot := fun M => (none, M)
+  promote := fun M _ => (none, M)
+
+def s0 : MHSt 0 where
+  heap := fun i => if i = id1 then some (.dataSlab (md_data d1 none))
+    else if i = id2 then some (.dataSlab (md_data d2 none)) else none
+  ctx := { ctr := 3, eff := [] }
+
+/-- the binary search on the concrete slab: digest 60 goes to child 1, digest 10 to child 0 -/
+example : mds_idx mm.childHdrs 60 = 1 ∧ mds_idx mm.childHdrs 10 = 0 ∧ mds_idx mm.childHdrs 50 = 1 := by decide
+
+example : ∃ i' j' : Int, MapMetaDataSlab_Set.loop1 (envD 1024 eb1 rs0) (md_meta mm (some xx)) (u64 60)
+    ((Int.ofNat (md_meta mm (some xx)).childrenHeaders.length - (0 : Int) + 1).toNat) (0 : Int) (0 : Int)
+    (Int.ofNat (md_meta mm (some xx)).childrenHeaders.length) =
+      (.done (Int.ofNat 1, i', j') :
+        Loop (Option (Option SV × Option SV × Option GE × MapMetaDataSlab DX × MHSt 0)) (Int × Int × Int)) :=
+  mds_Set_loop1_top (envD 1024 eb1 rs0) mm (some xx) 60 (by decide) (by decide) (by decide)
+
+/-- `Ob_MapDataSlab_Set_heap` applies to the concrete data slab `d2` with the model's element layer -/
+example (v : Elem) :=
+  Ob_MapDataSlab_Set_heap 1024 eb0 rs0 cfg0 kk v (fun _ => True) (eb0_spec kk v) d2 none rfl trivial s0 rfl
+
+/-- `Ob_MapMetaDataSlab_Set_step` applies to the concrete index slab: the key with digest 60 goes to child 1 (`d2`),
+    which is in the heap; its `Set` succeeds -/
+example (v : Elem) :
+    MapMetaDataSlab_Set (envD 1024 eb1 rs0) 1 (md_meta mm (some xx)) s0 () kk (u64 0) (u64 (kk.dig 0)) (.key kk) (.val v) =
+      mds_stepSpec 1024 eb1 rs0 (md_meta mm (some xx)) 1 (some (.key kk)) none
+        (.dataSlab { md_data d2 none with header := { slabID := id2, size := u32 (18 + 10), firstKey := u64 0 } })
+        (s0.store id2 (.dataSlab { md_data d2 none with header := { slabID := id2, size := u32 (18 + 10), firstKey := u64 0 } })) :=
+  Ob_MapMetaDataSlab_Set_step 1024 eb1 rs0 mm (some xx) s0 _ kk v 0 (by decide) (by decide) (by decide) (by decide)
+    (.dataSlab (md_data d2 none)) _ _ _ rfl rfl
+
+/-- the error case applies when the heap is empty -/
+example (v : Elem) :
+    MapMetaDataSlab_Set (envD 1024 eb1 rs0) 1 (md_meta mm (some xx)) { s0 with heap := fun _ => none } () kk (u64 0)
+      (u64 (kk.dig 0)) (.key kk) (.val v) =
+      some (none, none, some .slabNotFound, md_meta mm (some xx), { s0 with heap := fun _ => none }) :=
+  Ob_MapMetaDataSlab_Set_step_notFound 1024 eb1 rs0 mm (some xx) _ kk v 0 (by decide) (by decide) (by decide)
+    (by decide) rfl
+
+end mdsEx
+
 end Atree.TransEq
